@@ -21,7 +21,7 @@ class Obs:
     __slots__ = ("data", "ops", "parse_err", "ref_ok", "ref_err", "ref_log", "ref_value", "ref_steps",
                  "fick_ok", "fick_err", "fick_stage", "fick_steps", "lock_div", "lock_steps",
                  "src", "exec_err", "dec_log", "dec_value", "missing", "ref_canon", "dec_canon",
-                 "cyclic", "value_equal", "n_ref_calls", "n_ref_imports", "has_markmemo", "module")
+                 "cyclic", "value_equal", "n_ref_calls", "n_ref_imports", "has_markmemo", "module", "ran_without_result")
 
     def __init__(self, data):
         self.data = data
@@ -153,6 +153,10 @@ def run_decompiled(o, result_name="result"):
         return
     except BaseException as e:
         o.exec_err = e
+        if getattr(e, "vp_completed", False):
+            o.dec_log = e.vp_log
+            o.missing = refvm.missing_events(o.ref_log, e.vp_log)
+            o.ran_without_result = True
         return
     o.dec_log = log
     o.dec_value = val
